@@ -179,9 +179,6 @@ pub fn families(prop: &str, tier: Tier) -> Vec<Cfg> {
             let mut a = Cfg::base("C05-handshake-variants");
             a.props = vec!["C05"];
             a.ops = vec![OpK::Pub1, OpK::Pub2, OpK::Sub, OpK::Unsub, OpK::Poll, OpK::DropConn];
-            if !q {
-                a.ops.push(OpK::Forget);
-            }
             a.io = IoMenu::faults_only();
             a.io.write_pending = true;
             a.io.read_pending = true;
@@ -193,6 +190,15 @@ pub fn families(prop: &str, tier: Tier) -> Vec<Cfg> {
             a.max_conns = if q { 3 } else { 4 };
             a.max_reqs = if q { 2 } else { 3 };
             a.dev = if q { 1 } else { 2 };
+            if !q {
+                // the full menu of handshake failures with two deviations is explored on three connections;
+                // four connections with one deviation
+                let mut b = a.clone();
+                b.family = "C05-handshake-variants-four-connections";
+                b.dev = 1;
+                a.max_conns = 3;
+                return vec![a, b];
+            }
             vec![a]
         }
         "C06" => {
